@@ -22,9 +22,9 @@ Import ListNotations.
 Open Scope Z_scope.
 
 (* the regenerated source functions equal the hand model used by the correspondence check *)
-Theorem C15_translation_matches_model : forall k e level n os_raw aff cg loky_env,
+Theorem C15_translation_matches_model : forall k e level n os_raw aff cg loky_env phys,
   eff_gen k e level n = eff_model k e level n /\
-  cpu_count os_raw aff cg loky_env false = Ok (cpu_count_model os_raw aff cg loky_env).
+  cpu_count os_raw aff cg loky_env phys false = Ok (cpu_count_model os_raw aff cg loky_env).
 Proof. exact C15_translation_matches_model_holds. Qed.
 Print Assumptions C15_translation_matches_model.
 
@@ -95,13 +95,27 @@ Print Assumptions C15_configure.
 
 (* cpu_count() (regenerated): at least 1, never above a constraint that allows >= 1 CPU, and exactly the
    minimum of the constraints floored at 1.  aff = affinity, cg = cgroup quota, loky_env = LOKY_MAX_CPU_COUNT *)
-Theorem C15_cpu_count : forall os_raw aff cg loky_env,
-  exists v, cpu_count os_raw aff cg loky_env false = Ok v /\ v >= 1 /\
+Theorem C15_cpu_count : forall os_raw aff cg loky_env phys,
+  exists v, cpu_count os_raw aff cg loky_env phys false = Ok v /\ v >= 1 /\
   (forall c, 1 <= c -> (c = os_count os_raw \/ aff = Some c \/ cg = Some c \/ loky_env = Some c) -> v <= c) /\
   v = Z.max 1 (Z.min (os_count os_raw) (Z.min (orelse aff (os_count os_raw))
                  (Z.min (orelse cg (os_count os_raw)) (orelse loky_env (os_count os_raw))))).
 Proof. exact C15_cpu_count_holds. Qed.
 Print Assumptions C15_cpu_count.
+
+(* cpu_count(only_physical_cores=True) (both paths of cpu_count are regenerated; phys = what _count_physical_cores() reports):
+   a user limit below the machine's CPU count (affinity mask, cgroup quota, LOKY_MAX_CPU_COUNT) wins over the physical-core count;
+   the result is >= 1 *)
+Theorem C15_cpu_count_physical : forall os_raw aff cg loky_env phys,
+  cpu_count os_raw aff cg loky_env phys true = Ok (cpu_count_physical_model os_raw aff cg loky_env phys) /\
+  ((forall p, phys = Some p -> 1 <= p) ->
+   let v := cpu_count_physical_model os_raw aff cg loky_env phys in
+   let user := cpu_user_model os_raw aff cg loky_env in
+   v >= 1 /\
+   (user < os_count os_raw -> v = Z.max user 1 /\ v = cpu_count_model os_raw aff cg loky_env) /\
+   (os_count os_raw <= user -> forall p, phys = Some p -> v = p)).
+Proof. intros. split; [apply gen_cpu_count_physical_eq | apply cpu_count_physical_spec]. Qed.
+Print Assumptions C15_cpu_count_physical.
 
 (* process backends reached from a worker thread below level 0, or inside a daemonic process (a
    multiprocessing worker), or (multiprocessing) inside a loky worker, resolve to one worker: no new process *)
@@ -243,7 +257,7 @@ Print Assumptions C15_example_env.
 Example C15_example_resolve :
   let e := {| e_mp_none := false; e_cpus := 16; e_daemon := false; e_depth := 0; e_main := true |} in
   eff_gen KLoky e 0 (-3) = Ok 14 /\ eff_gen KThr e 0 (-40) = Ok 1 /\ eff_gen KMp e 0 5 = Ok 5 /\
-  cpu_count (Some 16) (Some 6) None (Some 0) false = Ok 1 /\ cpu_count (Some 16) (Some 6) (Some 3) (Some 1000) false = Ok 3.
+  cpu_count (Some 16) (Some 6) None (Some 0) None false = Ok 1 /\ cpu_count (Some 16) (Some 6) (Some 3) (Some 1000) (Some 8) false = Ok 3.
 Proof. vm_compute. repeat split; reflexivity. Qed.
 Print Assumptions C15_example_resolve.
 
